@@ -35,11 +35,12 @@ Ids == {
   << W("thrift", "l"), W("module", "l") >>, << << A("thrift", "t"), A("module", "t") >> >>, << W("values", "l") >>,
   << W("x", "l") >>, << W("x", "u") >>, << W("success", "l") >>, << W("decode", "l") >>, << W("from", "l"), W("wire", "l") >> }
 
-AllFamilies == {"twodefs", "fields", "items"}
+AllFamilies == {"twodefs", "fields", "items", "constref"}
 Kinds == {"struct", "union", "exception", "typedef", "enum", "const", "service"}
 Named(id) == [name |-> id, txt |-> Text(id)]
 Fld(id, opt) == [name |-> id, txt |-> Text(id), goname |-> "", opt |-> opt]
-Def(kind, id, items, fields, funcs) == [kind |-> kind, name |-> id, txt |-> Text(id), goname |-> "", items |-> items, fields |-> fields, funcs |-> funcs]
+Def(kind, id, items, fields, funcs) == [kind |-> kind, name |-> id, txt |-> Text(id), goname |-> "", items |-> items, fields |-> fields, funcs |-> funcs,
+                                       ty |-> "", cross |-> FALSE]
 Plain(kind, id) == Def(kind, id, IF kind = "enum" THEN << << W("x", "l") >> >> ELSE << >>, << >>, << >>)
 
 VARIABLES fam, prog, first
@@ -68,20 +69,26 @@ TwoItems == "items" \in Families /\ \E i2 \in Ids :
    /\ Text(first) # Text(i2)
    /\ prog' = << Def("enum", << W("foo", "t") >>, << first, i2 >>, << >>, << >>) >> /\ fam' = "items"
 
-Next == Pick \/ (fam = "picked" /\ UNCHANGED first /\ (TwoDefs \/ ItemMeetsDef \/ TwoFields \/ TwoParams \/ TwoItems))
+\* a constant whose value other constants and defaults refer to by name: the declaration (constantName) and the
+\* reference (LookupConstantName) must agree on its Go name; ty = its type (a primitive is inlined by the compiler,
+\* a typedef of one or an enum keeps the reference), cross = referenced from an including file
+ConstRef == "constref" \in Families /\ \E ty \in {"i32", "TI", "E", "TS"}, cross \in BOOLEAN :
+   /\ prog' = << [Def("const", first, << >>, << >>, << >>) EXCEPT !.ty = ty, !.cross = cross] >> /\ fam' = "constref"
+
+Next == Pick \/ (fam = "picked" /\ UNCHANGED first /\ (TwoDefs \/ ItemMeetsDef \/ TwoFields \/ TwoParams \/ TwoItems \/ ConstRef))
 Spec == Init /\ [][Next]_vars
 
 AcceptedBuilds == prog # None => \A o \in OptionSets : ModelAccepts(prog, o) => ModelBuilds(prog, o)
 SafeAccepted   == prog # None => \A o \in OptionSets : Safe(prog) => ModelAccepts(prog, o)
 
 \* interesting = some two names meet, or a field meets a method
-Interesting == ~Safe(prog)
+Interesting == ~Safe(prog) \/ fam = "constref"
 RECURSIVE Hash(_, _)
 Hash(s, i) == IF i > Len(s) THEN 0 ELSE (IF s[i] = "_" THEN 3 ELSE 7) + 2 * Hash(s, i + 1)
 TxtHash == Len(prog) + Len(prog[1].txt) * 5 + (IF Len(prog) > 1 THEN Len(prog[2].txt) * 11 ELSE 0)
            + (IF Len(prog[1].fields) > 0 THEN Len(prog[1].fields[1].txt) * 13 + Len(prog[1].fields[2].txt) * 17 ELSE 0)
            + (IF Len(prog[1].items) > 1 THEN Len(prog[1].items[1]) * 19 + Len(Text(prog[1].items[2])) * 23 ELSE 0)
            + (IF Len(prog[1].funcs) > 0 THEN Len(prog[1].funcs[1].params[1].txt) * 29 + Len(prog[1].funcs[1].params[2].txt) * 31 ELSE 0)
-EmitCase == (prog # None /\ (TxtHash + TLCGet("distinct")) % (IF Interesting THEN IntMod ELSE EmitMod) = EmitPick % (IF Interesting THEN IntMod ELSE EmitMod))
+EmitCase == (prog # None /\ (fam = "constref" \/ (TxtHash + TLCGet("distinct")) % (IF Interesting THEN IntMod ELSE EmitMod) = EmitPick % (IF Interesting THEN IntMod ELSE EmitMod)))
             => PrintT(<<"CASE", ToJson([fam |-> fam, defs |-> prog, interesting |-> Interesting])>>)
 =============================================================================
